@@ -60,7 +60,9 @@ class Body:
         self.blocks = fn["blocks"]
         self.n = len(self.blocks)
         self.locals = fn["locals"]
-        self._succ = [self._succ_of(i) for i in range(self.n)]
+        # `unreachable` terminators (the impossible third arm of a two-variant switch, ...) are not exits
+        self._dead = {i for i, b in enumerate(self.blocks) if b["term"]["k"] == "unreachable" and not b["stmts"]}
+        self._succ = [[x for x in self._succ_of(i) if x not in self._dead] for i in range(self.n)]
         self._pred = [[] for _ in range(self.n)]
         for i, ss in enumerate(self._succ):
             for s_ in ss:
